@@ -46,6 +46,10 @@ def load_variants() -> List[dict]:
                 for prop in meta.get("detected_by", []):
                     out.append({"prop": prop["property"], "id": f"seeded/{d.name}", "kind": "M", "rule": prop.get("rule", ""),
                                 "patch": str(d / "patch.diff"), "note": meta.get("summary", "")})
+                # changes the static check can only refuse to decide (ANALYSIS-ERROR, exit 2): recorded honestly, must never become a silent pass
+                for prop in meta.get("refused_by", []):
+                    out.append({"prop": prop["property"], "id": f"seeded/{d.name}", "kind": "M", "rule": "", "expect_code": 2,
+                                "patch": str(d / "patch.diff"), "note": meta.get("summary", "")})
     return out
 
 
